@@ -396,7 +396,7 @@ impl<T: TypeConfig> Transport<T> for SimTransport<T> {
         if peers.is_empty() {
             return Err(NetworkError::EmptyPeerList { request_type: "send_vote_requests" }.into());
         }
-        self.net.oracle.lock().unwrap().on_vote_request_sent(self.me, &req);
+        self.net.oracle.lock().unwrap().on_vote_request_sent(self.me, &req, peers.iter().map(|p| p.id).filter(|i| *i != self.me).collect());
         let mut tasks = futures::stream::FuturesUnordered::new();
         let mut peer_ids = HashSet::new();
         for peer in peers {
@@ -894,8 +894,6 @@ impl<T: TypeConfig> SimTransport<T> {
                 let (resp_tx, resp_rx) = MaybeCloneOneshot::new();
                 let (tx, rx) = mpsc::channel::<SnapshotChunk>(32);
                 // wire: chunks in order, each with its own delay; a partition stalls then breaks
-                let net2 = ep_net_clone();
-                let _ = net2;
                 let feeder = async move {
                     while let Some(c) = request_rx.recv().await {
                         if tx.send((*c).clone()).await.is_err() {
@@ -942,5 +940,3 @@ impl<T: TypeConfig> SimTransport<T> {
         }
     }
 }
-
-fn ep_net_clone() {}
